@@ -95,73 +95,26 @@ def findFrom (rs : Array Rec) (start : Nat) (p : Rec → Bool) : Option Nat :=
   (List.range (rs.size - start)).map (· + start) |>.find? fun j => match rs[j]? with
     | some r => p r | none => false
 
-/-- The operation between a `call` record and its `ret`, with everything the step needs. -/
-structure Pending where
-  op : String
-  script : Script := .ok
-  res : String := ""
-  sres : Option StartRes := none
-  dialed : Bool := false
-  conn : Nat := 0
-  sid : Nat := 0
-deriving Repr
-
-/-- all states an operation can lead to from `s` (empty = this observation is impossible) -/
-def applyOp (p : Pending) (s : State) : List State :=
-  match p.op with
+/-- The operation between a `call` record and its `ret`, as observed. -/
+def mkObs (op : String) (script : Script) (ret : Rec) : OpObs :=
+  match op with
   | "start" =>
-    match p.sres with
-    | none => []
-    | some r =>
-      match step? fixed s (.start p.script r) with
-      | none => []
-      | some s' =>
-        let mDial := !s.started && s.conn.isNone
-        let mSid := if s'.cur = s.cur + 1 then s'.cur else 0
-        let mConn := if s'.dials = s.dials + 1 then s'.dials else 0
-        if mDial == p.dialed && mSid == p.sid && mConn == p.conn then [s'] else []
-  | "stop" => if p.res == "returned" then (step? fixed s .stop).toList else []
+    match parseRes ret.res ret.kind with
+    | some r => .start script r ret.dialed ret.sid ret.conn
+    | none => .impossible
+  | "stop" => if ret.res == "returned" then .stop else .impossible
   | "wait" =>
-    if p.res == "returned" then (step? fixed s (.wait true)).toList
-    else if p.res == "pending" then (step? fixed s (.wait false)).toList
-    else []
-  | "lose" =>
-    if p.res == "closed" && s.dials == p.conn then
-      match step? fixed s .connLost with
-      | some s' => [s']
-      | none => [s]
-    else [s]
-  | "await" | "pause" => [s]
-  | "dispatch" | "update" =>
-    (step? fixed s (.dispatch (p.res == "ok"))).toList
-  | _ => []
-
-structure Cfg where
-  s : State
-  applied : Bool
-deriving DecidableEq
-
-def dedup (l : List Cfg) : List Cfg := l.foldl (fun acc c => if acc.contains c then acc else acc ++ [c]) []
-
-/-- one round of silent moves: deliver any pending close notification; apply the pending
-    operation -/
-def silent (p : Option Pending) (c : Cfg) : List Cfg :=
-  let ns := c.s.inflight.filterMap fun sid =>
-    (step? fixed c.s (.closeNotify sid)).map fun s' => { c with s := s' }
-  let os := match p with
-    | some pd => if c.applied then [] else (applyOp pd c.s).map fun s' => { s := s', applied := true }
-    | none => []
-  ns ++ os
-
-def closure (p : Option Pending) (cs : List Cfg) : Nat → List Cfg
-  | 0 => cs
-  | fuel + 1 =>
-    let next := dedup (cs ++ cs.flatMap (silent p))
-    if next.length == cs.length then cs else closure p next fuel
+    if ret.res == "returned" then .wait true
+    else if ret.res == "pending" then .wait false
+    else .impossible
+  | "lose" => if ret.res == "closed" then .lose ret.conn else .nop
+  | "await" | "pause" => .nop
+  | "dispatch" | "update" => .request (ret.res == "ok")
+  | _ => .impossible
 
 structure Nfa where
   cfgs : List Cfg
-  pending : Option Pending := none
+  pending : Option OpObs := none
   onclose : Nat := 0
   notifies : Nat := 0
   failedAt : Option (Nat × String) := none
@@ -187,9 +140,7 @@ def feed (rs : Array Rec) (ops : Array OpIn) (n : Nfa) (j : Nat) (r : Rec) : Nfa
           | some cj => if cj < rj then (match rs[cj]!.facts with | some f => stageOf f | none => base) else base
           | none => base
         else base
-      let pd : Pending := { op := r.op, script := script, res := ret.res,
-                            sres := parseRes ret.res ret.kind, dialed := ret.dialed,
-                            conn := ret.conn, sid := ret.sid }
+      let pd : OpObs := mkObs r.op script ret
       let cs := n.cfgs.map fun c => { c with applied := false }
       { n with pending := some pd, cfgs := closure (some pd) cs 64 }
   | "ret" =>
@@ -212,12 +163,7 @@ def feed (rs : Array Rec) (ops : Array OpIn) (n : Nfa) (j : Nat) (r : Rec) : Nfa
       | some rj => j < rj
       | none => true
     if absorbed then n else
-      let cs := n.cfgs.map fun c =>
-        if c.s.dials == r.conn then
-          match step? fixed c.s .connLost with
-          | some s' => { c with s := s' }
-          | none => c
-        else c
+      let cs := n.cfgs.map fun c => { c with s := loseConn r.conn c.s }
       { n with cfgs := closure n.pending (dedup cs) 64 }
   | "end" =>
     if r.res == "complete" then
